@@ -1,7 +1,8 @@
 (* C13 — decoders and byte-level entry points are total.
    Subject: the panic/alloc/depth-aware model [dec_pa] (Model/CborPA.v) of
-   crates/echo-wasm-abi/src/canonical.rs :: decode_value.  [cfg_unguarded] = the decoder as it is in /repo
-   (cfg_repo, see [repo_cfg_known]); [cfg_guarded] = the decoder with the proposed element-budget + depth guard.
+   crates/echo-wasm-abi/src/canonical.rs :: decode_value.  [cfg_repo] = the decoder as it is in /repo now
+   (= [cfg_guarded]: element budget + MAX_DECODE_DEPTH, /repo 65efcf1, see [repo_cfg_known]);
+   [cfg_unguarded] = the decoder before that commit (the three [_refuted] witnesses).
    Only property theorems live here: each is closed by [exact], pinned by [Check] and followed by [Print Assumptions]. *)
 From Coq Require Import List NArith ZArith.
 From Echo Require Import Base.Bytes Model.CborPA Proofs.CborPAProofs Proofs.CborPASim Model.WscReadPA Proofs.WscReadPAProofs.
@@ -25,40 +26,68 @@ Check dec_panic_only_capacity : forall c b,
   lenN b <= usize_max c -> forall p, result (dec_pa c b) = Panic p -> p = PCapacity.
 Print Assumptions dec_panic_only_capacity.
 
-(* ---- the property, for any guarded configuration (element budget + depth limit) ---- *)
+(* ---- THE PROPERTY, for the decoder as it is in /repo now (cfg_repo) ----
+   The only hypothesis is that 64 * len fits isize: every input shorter than 2^57 bytes. *)
 
-(* FULL STATEMENT: forall b, result (dec_pa cfg b) is not a panic.  Hypotheses: the configuration is
-   guarded, isize <= usize, and 64 * len fits isize (any input shorter than 2^57 bytes on 64-bit targets,
-   2^25 bytes on wasm32). *)
-Theorem dec_no_panic : forall c b,
-  is_guarded c = true -> isize_max c <= usize_max c -> size_entry * lenN b <= isize_max c ->
-  forall p, result (dec_pa c b) <> Panic p.
-Proof. exact guarded_no_panic. Qed.
-Check dec_no_panic : forall c b,
-  is_guarded c = true -> isize_max c <= usize_max c -> size_entry * lenN b <= isize_max c ->
-  forall p, result (dec_pa c b) <> Panic p.
+(* FULL STATEMENT: for every byte string, decode_value does not panic. *)
+Theorem dec_no_panic : forall b : bytes,
+  size_entry * lenN b <= isize_max cfg_repo -> forall p, result (dec_pa cfg_repo b) <> Panic p.
+Proof. exact repo_no_panic. Qed.
+Check dec_no_panic : forall b : bytes,
+  size_entry * lenN b <= isize_max cfg_repo -> forall p, result (dec_pa cfg_repo b) <> Panic p.
 Print Assumptions dec_no_panic.
 
 (* Peak live heap bytes (decoded value + pre-allocated buffers + live map-key copies) never exceed
    66 bytes per input byte, for every outcome (value or error), independent of nesting. *)
-Theorem dec_alloc_linear : forall c b,
+Theorem dec_alloc_linear : forall b : bytes,
+  size_entry * lenN b <= isize_max cfg_repo -> alloc_peak (dec_pa cfg_repo b) <= 66 * lenN b.
+Proof. exact repo_alloc_linear. Qed.
+Check dec_alloc_linear : forall b : bytes,
+  size_entry * lenN b <= isize_max cfg_repo -> alloc_peak (dec_pa cfg_repo b) <= 66 * lenN b.
+Print Assumptions dec_alloc_linear.
+
+(* The recursion never goes deeper than MAX_DECODE_DEPTH + 1 = 129 levels below the root. *)
+Theorem dec_depth_bounded : forall b : bytes,
+  size_entry * lenN b <= isize_max cfg_repo -> depth_max (dec_pa cfg_repo b) <= guard_depth + 1.
+Proof. exact repo_depth_bounded. Qed.
+Check dec_depth_bounded : forall b : bytes,
+  size_entry * lenN b <= isize_max cfg_repo -> depth_max (dec_pa cfg_repo b) <= guard_depth + 1.
+Print Assumptions dec_depth_bounded.
+
+(* ---- the same three facts for ANY guarded configuration (e.g. cfg_guarded32 = wasm32 word size) ---- *)
+
+(* FULL STATEMENT: forall b, result (dec_pa cfg b) is not a panic.  Hypotheses: the configuration is
+   guarded, isize <= usize, and 64 * len fits isize (any input shorter than 2^57 bytes on 64-bit targets,
+   2^25 bytes on wasm32). *)
+Theorem dec_no_panic_any_guarded : forall c b,
+  is_guarded c = true -> isize_max c <= usize_max c -> size_entry * lenN b <= isize_max c ->
+  forall p, result (dec_pa c b) <> Panic p.
+Proof. exact guarded_no_panic. Qed.
+Check dec_no_panic_any_guarded : forall c b,
+  is_guarded c = true -> isize_max c <= usize_max c -> size_entry * lenN b <= isize_max c ->
+  forall p, result (dec_pa c b) <> Panic p.
+Print Assumptions dec_no_panic_any_guarded.
+
+(* Peak live heap bytes (decoded value + pre-allocated buffers + live map-key copies) never exceed
+   66 bytes per input byte, for every outcome (value or error), independent of nesting. *)
+Theorem dec_alloc_linear_any_guarded : forall c b,
   is_guarded c = true -> isize_max c <= usize_max c -> size_entry * lenN b <= isize_max c ->
   alloc_peak (dec_pa c b) <= 66 * lenN b.
 Proof. exact guarded_alloc_linear. Qed.
-Check dec_alloc_linear : forall c b,
+Check dec_alloc_linear_any_guarded : forall c b,
   is_guarded c = true -> isize_max c <= usize_max c -> size_entry * lenN b <= isize_max c ->
   alloc_peak (dec_pa c b) <= 66 * lenN b.
-Print Assumptions dec_alloc_linear.
+Print Assumptions dec_alloc_linear_any_guarded.
 
 (* The recursion never goes deeper than limit + 1 frames below the root. *)
-Theorem dec_depth_bounded : forall c b m,
+Theorem dec_depth_bounded_any_guarded : forall c b m,
   guard c = true -> depth_limit c = Some m -> isize_max c <= usize_max c -> size_entry * lenN b <= isize_max c ->
   depth_max (dec_pa c b) <= m + 1.
 Proof. exact guarded_depth_bounded. Qed.
-Check dec_depth_bounded : forall c b m,
+Check dec_depth_bounded_any_guarded : forall c b m,
   guard c = true -> depth_limit c = Some m -> isize_max c <= usize_max c -> size_entry * lenN b <= isize_max c ->
   depth_max (dec_pa c b) <= m + 1.
-Print Assumptions dec_depth_bounded.
+Print Assumptions dec_depth_bounded_any_guarded.
 
 (* The guard is transparent: whatever the unguarded decoder accepts without nesting deeper than the limit,
    the guarded decoder accepts with the identical value (the patch cannot break a valid payload). *)
@@ -82,7 +111,8 @@ Check guard_only_removes : forall (b : bytes) v,
   result (dec_pa cfg_guarded b) = Val v -> result (dec_pa cfg_unguarded b) = Val v.
 Print Assumptions guard_only_removes.
 
-(* ---- REFUTED for the decoder as it is (cfg_unguarded); witnesses are replayed on /repo by the harness ---- *)
+(* ---- REFUTED for the decoder before /repo 65efcf1 (cfg_unguarded); the witnesses are in corpus/C13/f6.txt and
+        are replayed on /repo by the harness on every run (they must now be typed errors) ---- *)
 
 Theorem dec_no_panic_refuted : exists b, result (dec_pa cfg_unguarded b) = Panic PCapacity.
 Proof. exists w_capacity. exact unguarded_capacity_panic. Qed.
@@ -161,7 +191,7 @@ Print Assumptions repo_cfg_known.
 Example c13_nonvacuous :
   let b := [162; 1; 130; 97; 65; 66; 1; 2; 161; 2; 3; 246] in   (* {1: ["A", h'0102'], {2: 3}: null} *)
   is_guarded cfg_guarded = true /\ isize_max cfg_guarded <= usize_max cfg_guarded /\
-  size_entry * lenN b <= isize_max cfg_guarded /\
+  size_entry * lenN b <= isize_max cfg_guarded /\ size_entry * lenN b <= isize_max cfg_repo /\ cfg_repo = cfg_guarded /\
   result (dec_pa cfg_guarded b) =
     Val (VMap [(VInt 1, VArr [VText [65]; VBytes [1; 2]]); (VMap [(VInt 2, VInt 3)], VNull)]) /\
   alloc_peak (dec_pa cfg_guarded b) = 263 /\ depth_max (dec_pa cfg_guarded b) = 2 /\
